@@ -136,6 +136,36 @@ def formatter_level(check, P):
         def entry(I, _):
             W.call_entry(I, f_set, {"value": Const(sym)})
             return W.call_entry(I, f_com, {"text": text})
+
+        def entry_after_rejected(I, _, bad):
+            # histories contain rejected calls: a refused reconfiguration must leave the style as it was
+            from ..interp import AbsRaise
+            W.call_entry(I, f_set, {"value": Const(sym)})
+            try:
+                W.call_entry(I, f_set, {"value": Const(bad)})
+            except AbsRaise:
+                return W.call_entry(I, f_com, {"text": text})
+            return Const("<accepted>")          # the value was accepted: a different style, judged by its own run
+        if enclosed and sym == sym.strip():
+            for bad in ("", "   ", "a b"):
+                for path in I.explore(lambda I: None, lambda I, c, bad=bad: entry_after_rejected(I, c, bad), max_dev=None):
+                    n += 1
+                    if path.outcome != "return" or path.value == Const("<accepted>"):
+                        continue
+                    sv = I.as_str(path.value)
+                    ts = [p for p in (sv.parts if sv is not None else []) if isinstance(p, Text) and p.name == "arg.text"]
+                    closing = CLOSERS.get(sym)
+                    tag = closing if closing is not None and len(closing) == 1 else "seq:" + str(closing)
+                    suffix_ok = sv is not None and any(isinstance(p, Lit) and closing and closing in p.text for p in sv.parts[-1:])
+                    if not suffix_ok:
+                        continue        # the rejected call changed the style to an open one as a whole: consistent
+                    if ts and (tag in ts[0].removed) and MUST_REMOVE <= ts[0].removed:
+                        check.ok("R1", f"style {sym!r} after a rejected set_comment_symbols({bad!r}): still sanitised")
+                    else:
+                        check.violation("R1", f"style:{sym}:after-rejected-reconfiguration",
+                                        f"comment style {sym!r}: after set_comment_symbols({bad!r}) was rejected, comment() still closes with {closing!r} but no longer removes it "
+                                        f"from the text (removed: {sorted(ts[0].removed) if ts else '?'}): the rejected call left template and closing symbols inconsistent",
+                                        [f"path decisions: {decisions_text(path)}"])
         for path in I.explore(lambda I: None, entry, max_dev=None):
             n += 1
             d = [f"path decisions: {decisions_text(path)}"]
